@@ -222,6 +222,15 @@ def phase_table(ctx, f):
         d = [x for x in t.fill_defs.get(val.id, []) if x is not None]
         val = d[0] if d else val
     if not isinstance(val, ast.Call):
+        # None stored as an entry while "absent" is tested as `table.get(key) is None`: the two cannot be told apart, so a
+        # later row of the same read is taken for its first
+        vname = t.store.value.id if isinstance(t.store.value, ast.Name) else None
+        stores_none = vname is not None and any(isinstance(x, ast.Constant) and x.value is None for x in t.fill_defs.get(vname, []) if x is not None)
+        from .c09 import guards_of as _g9
+
+        tests = [norm(t_) for t_, _pol in _g9(g.node, t.store)]
+        if stores_none and any(f"{t.fill_name}.get(" in t_ and "is None" in t_ for t_ in tests):
+            ctx.violated("R20.4", g.where(t.store), f"`{norm(t.store)}` may store None as the entry of a read, and whether a read is already listed is tested with `{next(t_ for t_ in tests if '.get(' in t_)}`: a read whose first TSV row was stored as None looks unlisted, so a later row of the same read replaces it (the first row must win)", key_of(g, "none-entry-and-none-test"))
         raise AnalysisError("R20.4", g.where(t.store), "per-read entry is not built by a constructor call")
     ctor = repo.resolve_call(g, val)
     if ctor is None:
